@@ -5,7 +5,7 @@
    The 2^31 - 2^17 bound on each submitted stream is part of the theorem: with a 32-bit
    sequence space and unbounded duplication/delay the statement is false without it. *)
 From Elvis Require Import Model.Base Model.U32 Model.Tcb Model.TcpNet
-  Proofs.TcbSafetyDefs Proofs.TcbSafetyEx Proofs.TcbSafetyThms Proofs.TcbLiveSys Proofs.TcbLiveThm.
+  Proofs.TcbSafetyDefs Proofs.TcbSafetyEx Proofs.TcbSafetyThms Proofs.TcbLiveSys Proofs.TcbLiveThm Proofs.TcbLiveEnd.
 Local Open Scope Z_scope.
 
 (* safety: in every reachable state of every closed trace (any interleaving of open / write /
@@ -117,3 +117,28 @@ Theorem C01_liveness_example :
   length (subA s) = 51%nat /\ length (subB s) = 1487%nat.
 Proof. exact liveness_example_explicit. Qed.
 Print Assumptions C01_liveness_example.
+
+(* quiescent states are reachable for EVERY configuration: passive open (B listens, A opens) and
+   simultaneous open (both open actively) complete within two loss-free rounds and leave both
+   endpoints ESTABLISHED and quiescent with SND.NXT = ISS+1 on both sides
+   ([open_trace true] = [LOpen SA; LFair 2], [open_trace false] = [LOpen SA; LOpen SB; LFair 2]) *)
+Theorem C01_handshake_quiescent : forall (c : config) (listenB : bool),
+  u32 (issA c) -> u32 (issB c) -> 100 <= mtuA c <= 65535 -> 100 <= mtuB c <= 65535 ->
+  let s := run c (init_sys listenB) (open_trace listenB) in
+  Quiescent c s (wadd (issA c) 1) (wadd (issB c) 1) /\
+  subA s = [] /\ subB s = [] /\ delA s = [] /\ delB s = [].
+Proof. exact handshake_explicit. Qed.
+Print Assumptions C01_handshake_quiescent.
+
+(* end to end, for every configuration: open, then any sequence of writes of at most one MSS in
+   either direction, each followed by two loss-free rounds: every byte written is delivered to the
+   peer application exactly once and in order, and the system is quiescent (everything
+   acknowledged, both endpoints silent - C01_quiescent_silent) *)
+Theorem C01_liveness_from_start_partial : forall (c : config) (listenB : bool) (ws : list (side * list Z)),
+  u32 (issA c) -> u32 (issB c) -> 100 <= mtuA c <= 65535 -> 100 <= mtuB c <= 65535 ->
+  (forall w, In w ws -> 0 < zlen (snd w) <= mtu_of c (fst w) - 50) ->
+  let s := run c (init_sys listenB) (open_trace listenB ++ write_trace ws) in
+  (exists a b, Quiescent c s a b) /\
+  forall x, sub_of s x = concat (chunks x ws) /\ delivered s (other x) = concat (chunks x ws).
+Proof. exact from_start_explicit. Qed.
+Print Assumptions C01_liveness_from_start_partial.
